@@ -13,9 +13,9 @@
 
    [context bp root] is specified independently of the code: drop one trailing slash, split at '/', cut at the last
    segment equal to root, join. *)
-From Coq Require Import List Bool.
+From Coq Require Import List Bool ZArith.
 From Coq.Strings Require Import Byte.
-From GR Require Import Base.Bytes Gen.TablesUrl Http.UrlModel Http.Url Http.UrlEnc Proofs.UrlProofs.
+From GR Require Import Base.Bytes Gen.TablesUrl Gen.TablesTunnel Http.UrlModel Http.Url Http.UrlEnc Proofs.UrlProofs.
 Import ListNotations.
 
 (* The request is always built, keeps the resolver's scheme and host, its escaped path is the context followed by the
@@ -54,6 +54,34 @@ Theorem no_normalisation : forall ptab qtab scheme host segs trailing root rpath
   u_rawquery u = raw_query_of q /\ u_forcequery u = force_query_of q.
 Proof. exact UrlProofs.no_normalisation. Qed.
 
+(* The same for a client with ANY QueryTunnellingThreshold (new_request_url_t: http.go:171-201 with the tunnelling branch;
+   [tunnels] is the threshold test of the module generation, transcribed from the current source, on the length of the
+   encoder's query).  A tunnelled request goes to the very same scheme, host and escaped path - context followed by the
+   encoder's resource path, byte for byte - with no query at all (the query is in the body: C14); an untunnelled one is
+   as above.  In both cases URL.String() is authority + context + path (+ ?query when not tunnelled). *)
+Theorem tunnelled_url_preserves_base_and_path : forall v2 th ptab qtab scheme host segs trailing root rpath q,
+  In (ptab, qtab) module_tables ->
+  in_grammar scheme host segs root = true -> encoded_path ptab root rpath = true -> encoded_query qtab q = true ->
+  exists u,
+    new_request_url_t v2 th (mk_base scheme host (render_ctx segs trailing)) root rpath q = UOk u /\
+    u_scheme u = scheme /\ u_host u = host /\
+    escaped_path u = context (render_ctx segs trailing) root ++ rpath /\
+    u_rawquery u = (if tunnels v2 th q then [] else raw_query_of q) /\
+    u_forcequery u = (if tunnels v2 th q then false else force_query_of q) /\
+    url_string u = UOk (authority_prefix scheme host ++ (context (render_ctx segs trailing) root ++ rpath)
+                        ++ (if tunnels v2 th q then [] else query_suffix q)).
+Proof. exact UrlProofs.tunnelled_url_preserves_base_and_path. Qed.
+
+(* Histories.  newRequest / formatQueryUrl read the client's tunnelling threshold and ask its resolver for the base URL of
+   the request at hand; they keep nothing.  Whatever was requested before (other root resources, other bases, other
+   resolver answers) and whatever is requested afterwards on the same client, the URL of a request is the URL of that
+   request alone - so the three theorems above hold of EVERY request of EVERY history.  The correspondence run replays
+   this on the real client: requests are issued in histories on long-lived clients and each is compared with
+   [request_url] of that request alone. *)
+Theorem url_of_request_history_independent : forall v2 th before r after,
+  nth_error (client_urls v2 th (before ++ r :: after)) (length before) = Some (request_url v2 th r).
+Proof. exact UrlProofs.url_of_request_history_independent. Qed.
+
 (* Table obligations (256-byte sweeps against the tables of the current tree): every byte the ROR2 path writer leaves raw
    or emits as structure is accepted by Go's validEncoded, so EscapedPath returns the encoder's text instead of encoding
    it again; every byte the ROR2 query writer can emit survives url.Parse (no control byte, no '#'). *)
@@ -88,7 +116,28 @@ Example c15_nonvacuous :
   end = UOk ([x68;x74;x74;x70;x3a;x2f;x2f;x68;x3a;x38;x30] ++ [x2f;x78;x2f;x63;x6f;x6c;x6c;x78] ++ rpath ++ [x3f;x71;x3d;x25;x32;x38]).
 Proof. vm_compute. repeat split; reflexivity. Qed.
 
+(* Non-vacuity of the tunnelled case: threshold 3, base http://h/x/coll, a complex key and an empty-string key in the path,
+   query ids=List(1,2): tunnelled, and the URL is http://h/x/coll/(a:1)/''/s without query. *)
+Example c15_tunnelled_nonvacuous :
+  let scheme := [x68;x74;x74;x70] in
+  let host := [x68] in
+  let segs := [[x78]; [x63;x6f;x6c;x6c]] in
+  let root := [x63;x6f;x6c;x6c] in
+  let rpath := [x2f;x63;x6f;x6c;x6c;x2f;x28;x61;x3a;x31;x29;x2f;x27;x27;x2f;x73] in
+  let q := Some [x69;x64;x73;x3d;x4c;x69;x73;x74;x28;x31;x2c;x32;x29] in
+  in_grammar scheme host segs root = true /\
+  encoded_path v2_unescaped_path_characters root rpath = true /\
+  encoded_query v2_unescaped_query_characters q = true /\
+  tunnels true 3 q = true /\
+  match new_request_url_t true 3 (mk_base scheme host (render_ctx segs false)) root rpath q with
+  | UOk u => url_string u
+  | UErr e => UErr e
+  end = UOk ([x68;x74;x74;x70;x3a;x2f;x2f;x68] ++ [x2f;x78] ++ rpath).
+Proof. vm_compute. repeat split; reflexivity. Qed.
+
 Print Assumptions url_preserves_base_and_path.
+Print Assumptions tunnelled_url_preserves_base_and_path.
+Print Assumptions url_of_request_history_independent.
 Print Assumptions root_segment_once.
 Print Assumptions no_normalisation.
 Print Assumptions encoder_output_accepted_by_net_url.
